@@ -557,6 +557,11 @@ func (o *Obligation) queryFull(extra []Term, selectPremises bool, local bool) st
 			}
 		}
 	}
+	for _, br := range e.predBridges {
+		if br.ndecl <= o.NDecl && strings.Contains(txt, "("+br.from+" ") && strings.Contains(txt, "("+br.to+" ") {
+			txt = br.text + "\n" + txt
+		}
+	}
 	var b strings.Builder
 	b.WriteString(preludeCore)
 	// function definitions are only included when something refers to them (cone of influence)
